@@ -606,7 +606,11 @@ class UniformTime(np.ndarray, TimeInterface):
         if isinstance(data, UniformTime):
             # Get attributes from the UniformTime object and transfer those
             # over:
+            # (the interval is handed over in whole base units together with the
+            # rate: re-deriving it from the float rate loses the last digits of
+            # intervals beyond 2**50 base units)
             if tspec == tspecs_w_data['nothing']:
+                sampling_interval = data.sampling_interval
                 sampling_rate = data.sampling_rate
                 duration = data.duration
             elif tspec == tspecs_w_data['sampling_interval']:
@@ -616,8 +620,10 @@ class UniformTime(np.ndarray, TimeInterface):
                 duration = data.duration
             elif tspec == tspecs_w_data['length']:
                 duration = length * data.sampling_interval
+                sampling_interval = data.sampling_interval
                 sampling_rate = data.sampling_rate
             elif tspec == tspecs_w_data['duration']:
+                sampling_interval = data.sampling_interval
                 sampling_rate = data.sampling_rate
             if time_unit is None:
                 # If the user didn't ask to change the time-unit, use the
@@ -657,7 +663,8 @@ class UniformTime(np.ndarray, TimeInterface):
                 c_f = time_unit_conversion[time_unit]
                 sampling_rate = Frequency(sampling_rate, time_unit='s')
                 sampling_interval = sampling_rate.to_period() / float(c_f)
-        else:
+        elif sampling_rate is None:  # Only if you didn't already 'inherit' this
+                                     # property from another time object above
             if isinstance(sampling_interval, TimeInterface):
                 c_f = time_unit_conversion[sampling_interval.time_unit]
                 sampling_rate = Frequency(1.0 / (float(sampling_interval) /
